@@ -144,7 +144,8 @@ _FR = ('fault_at == -1', '0 <= fault_at <= 2', '2 < fault_at <= 4', '4 < fault_a
 OB_PROTO = dict(
     id='CO.upload', impl='protocol_fixed', params=_P, pre=_PRE,
     cases=[(k, t, -1) for k in ('upload-seekable', 'copy') for t in (1, 4)],
-    cases_thorough=[(k, t, u) for k in ('upload-seekable', 'upload-stream', 'copy') for t in (1, 2, 3, 4) for u in (-1, 4)],
+    cases_thorough=[(k, t, -1) for k in ('upload-seekable', 'upload-stream', 'copy') for t in (1, 2, 3, 4)] +
+                   [('upload-seekable', 1, 4), ('upload-seekable', 2, 4)],
     splits=[[fr, sr, 'phase == 0', 's2 == -1'] for fr in _FR for sr in ('s1 <= 28', '28 < s1')],
     splits_thorough=[[fr] for fr in _FR + ('9 < fault_at',)],
     timeout=(170, 1500),
